@@ -43,6 +43,7 @@ static struct {
     int recycle;             /* the pool hands a freed handle out again at once (LIFO free list) */
     int freel[MAXREC], nfree;
     long recycled;
+    int user_scheds;
     ABT_xstream xs[3];
 } S;
 
@@ -292,11 +293,19 @@ static void run_c14(void)
         int first = (int)plan_n(NUP + 1);
         for (int k = 0; k < NUP + 1; k++)
             ps[n++] = S.P[(first + k) % (NUP + 1)];
-        ABT_OK(ABT_xstream_create_basic(kinds[plan_n(3)], n, ps, ABT_SCHED_CONFIG_NULL, &S.xs[e]));
+        if (plan_n(3) == 0) {
+            /* a user-defined scheduler: pops with ABT_pool_pop_thread / ABT_pool_pop and runs
+             * units with ABT_self_schedule / ABT_xstream_run_unit */
+            ABT_OK(ABT_xstream_create(wl_make_user_sched(n, ps), &S.xs[e]));
+            S.user_scheds++;
+        } else
+            ABT_OK(ABT_xstream_create_basic(kinds[plan_n(3)], n, ps, ABT_SCHED_CONFIG_NULL, &S.xs[e]));
     }
     int n = plan_range(1, sim_limit("units", 8));
     S.n = n;
     sim_note("C14 %s user pools%s, streams=%d units=%d: ", S.legacy ? "legacy" : "new-style", S.recycle ? " recycling handles" : "", nes, n);
+    if (S.user_scheds)
+        sim_note("(%d user-defined schedulers) ", S.user_scheds);
     for (int i = 0; i < n; i++) {
         cu *u = &S.U[i];
         u->id = i;
